@@ -18,8 +18,39 @@ def run(ck):
     incr.check_histories_parallel(ck, d, batches, ('C03',))
     from slices import engine
     engine.two_invocations(ck, 'C03', n_quick=6, fail_p=0.15)
+    asyncutils_correspondence(ck, d)
     incr.flush(ck)
     vf.sh(['rm', '-rf', d])
+
+
+def asyncutils_correspondence(ck, d):
+    """async_utils::all / both (how the per-path and per-command verdicts `is this input unchanged?` are combined while they are
+    evaluated concurrently) vs AsyncUtils.all_results / both: generated verdict lists with completion delays"""
+    import os
+    n = 120 if ck.tier == 'quick' else 1200
+    cf = os.path.join(d, 'asyncu_cases.txt')
+    cases = {}
+    with open(cf, 'w') as f:
+        for i in range(n):
+            which = ck.rng.choice(['all', 'all', 'all', 'both'])
+            k = 2 if which == 'both' else ck.rng.choice([0, 1, 2, 3, 5, 8, 20, 70])       # 70 > the buffer of 64
+            items = [(ck.rng.random() < (0.9 if k > 3 else 0.6), ck.rng.choice([0, 0, 1, 3, 8])) for _ in range(k)]
+            cases['y%d' % i] = (which, items)
+            f.write('Y y%d %s %s\n' % (i, which, ','.join('%d:%d' % (1 if v else 0, ms) for v, ms in items) or '-'))
+    rc, impl, err = vf.run_impl('asyncu', cf, timeout=600)
+    impl = vf.by_id(impl)
+    model = vf.by_id(vf.run_model('asyncu', cf))
+    ck.rule('async_utils: the real `all` (buffer_unordered(64), early return) and `both` on futures resolving to generated verdicts '
+            'after generated delays (0..70 futures) vs AsyncUtils.all_results / both')
+    for cid, (which, items) in cases.items():
+        m, r = model.get(cid), impl.get(cid)
+        ck.count(('asyncu', which, tuple(items)), sample={'combinator': which, 'verdicts_and_delays_ms': items, 'model': m, 'implementation': r})
+        ck.tally('asyncu:%s=%s' % (which, m))
+        if m != r:
+            ck.violation({'kind': 'async-utils', 'what': '%s over the verdicts %s: the real combinator answers %r, the model %r'
+                                                         % (which, items, r, m),
+                          'replay': 'ZINOMA_VERIF=asyncu on the line: Y x %s %s' % (which, ','.join('%d:%d' % (1 if v else 0, ms) for v, ms in items) or '-')},
+                         found_input=False)
 
 
 def replay(ck, path):
